@@ -853,13 +853,17 @@ func streamOperandMatrix(o *Out, r *Rng, tier string) {
 		lit("path", "ea"), lit("path", "obj"), lit("path", "missing"), lit("path", "r"), lit("path", "big"), lit("path", "b64"), lit("path", "huge"), lit("path", "esc"), lit("path", "uni"), lit("path", "raw"), lit("num", "4000000000000000000"), lit("num", "18446744073709551615"),
 		{Kind: "path", Path: []Sel{{Kind: "current"}}}, {Kind: "path", Path: []Sel{{Kind: "root"}, {Kind: "descent"}, {Kind: "name", Name: "k"}}},
 		{Kind: "path", Path: []Sel{{Kind: "current"}, {Kind: "name", Name: "arr"}, {Kind: "wild"}}},
+		// values no literal denotes, as results of sub-expressions: +Inf, -Inf (overflowed products), NaN
+		{Kind: "bin", Name: "*", L: lit("path", "big"), R: lit("path", "big")},
+		{Kind: "bin", Name: "*", L: lit("num", "-1e300"), R: lit("path", "big")},
+		{Kind: "call", Name: "sqrt", L: lit("num", "-1")},
 	}
 	left, right := operands, operands
 	if tier != "thorough" {
 		// quick: every operator with every RIGHT operand class against a rotating third of the left classes
 		left = nil
 		for i, e := range operands {
-			if i%3 == int(r.Intn(3)) || i < 7 {
+			if i%3 == int(r.Intn(3)) || i < 7 || i >= len(operands)-3 {
 				left = append(left, e)
 			}
 		}
